@@ -352,7 +352,7 @@ class _OneClass:
 
 for _m in MODS:
     _s = _m.split(".")[1]
-    UNITS[f"{_s}.pairing"] = Unit(f"{_s}.pairing", u_pairing_gates, [f"{_m}.pairing"], props=("C05", "C04"), args=(_m,))
+    UNITS[f"{_s}.pairing"] = Unit(f"{_s}.pairing", u_pairing_gates, [f"{_m}.pairing"], props=("C05", "C04", "C12"), args=(_m,))
 
 
 # ------------------------------------------------------------------------------------------
